@@ -27,12 +27,15 @@
 (***************************************************************************)
 EXTENDS VerifLib, Integers
 
-Ops == { "St204", "St304", "St404", "St999", "Msg",
+Ops == { "St204", "St304", "StKnown", "StUnreg", "Msg",
          "SetXA1", "AddXA2", "DelXA", "CType", "Cookie",
          "Close", "HandConnClose", "HandCL3", "TypedCLm1", "HandTE",
          "Error", "ResetBody", "BodyS", "BodyB", "AppendA", "RawR",
          "StrSExact", "StrSUnk", "StrBExact", "StrBUnk", "StrSShort", "StrSLong", "StrBLong",
          "SW", "SkipBody", "Trailer" }
+
+KnownStatus == 1     \* placeholder values, never written on the wire
+UnregStatus == 2
 
 \* content tokens and their byte lengths in the harness
 TokLen(t) == CASE t = "S" -> 3        \* "abc"
@@ -60,8 +63,11 @@ Stream(c, decl) == Body("stream", {c}, decl)
 Apply(op, r) ==
   CASE op = "St204" -> [r EXCEPT !.status = 204]
     [] op = "St304" -> [r EXCEPT !.status = 304]
-    [] op = "St404" -> [r EXCEPT !.status = 404]
-    [] op = "St999" -> [r EXCEPT !.status = 999]
+    \* any other final status carries a body (RFC 9112 6.3 exempts only 1xx, 204, 304): the
+    \* harness concretises KnownStatus to a seed-chosen registered code of 200..599 other than
+    \* 204/304 and UnregStatus to a seed-chosen unregistered code of 200..999
+    [] op = "StKnown" -> [r EXCEPT !.status = KnownStatus]
+    [] op = "StUnreg" -> [r EXCEPT !.status = UnregStatus]
     [] op = "Msg"   -> [r EXCEPT !.msg = TRUE]
     \* Set replaces the first value of the name (the documented multimap semantics, cf. C29)
     [] op = "SetXA1" -> [r EXCEPT !.xa = IF @ = <<>> THEN <<"1">> ELSE <<"1">> \o Tail(@)]
@@ -100,7 +106,7 @@ RECURSIVE Run(_, _)
 Run(p, r) == IF p = <<>> THEN r ELSE Run(Tail(p), Apply(Head(p), r))
 
 \* ------------------------------------------------------------------ reference
-NoBodyStatus(s) == s \in {204, 304} \/ s < 200
+NoBodyStatus(s) == s \in {204, 304}
 
 BodyAllowed(r, isHead) == ~isHead /\ ~r.skip /\ ~NoBodyStatus(r.status)
 
@@ -213,7 +219,7 @@ Next == \E op \in Ops : Do(op)
 Spec == Init /\ [][Next]_vars
 
 TypeOK ==
-  /\ r.status \in {200, 204, 304, 404, 500, 999}
+  /\ r.status \in {200, 204, 304, 500, KnownStatus, UnregStatus}
   /\ r.body.kind \in {"buf", "raw", "stream", "sw"}
   /\ r.body.decl \in {-2, -1, 2, 3, 4, 5, 5000}
   /\ IsStream(r.body) <=> r.body.decl # -2
